@@ -58,6 +58,8 @@ impl ValueChain {
     fn push_node(&self, mut new_node: Node) -> &Node {
         let mut cell = &self.root;
         loop {
+            #[cfg(unimock_verif)]
+            crate::verif::sync::announce(crate::verif::sync::Op::TryInsert, cell as *const OnceCell<Node> as usize);
             match cell.try_insert(new_node) {
                 Ok(new_node) => {
                     return new_node;
